@@ -220,6 +220,65 @@ def ctx_decorators(fr, qual):
         return []
 
 
+_CHECKER_OK = {}
+
+
+def _native_checker_conforms(ctx, qual, short):
+    """does the package-level check_param_range / check_param_options raise ValueError exactly when the modelled primitive does?  Decided by evaluating its
+    body on symbolic arguments (inlined, with this shortcut switched off) and comparing the union of its raise conditions with the primitive's condition"""
+    key = (id(ctx.model), qual)
+    if key in _CHECKER_OK:
+        return _CHECKER_OK[key]
+    _CHECKER_OK[key] = False                     # while it is being evaluated (and if anything goes wrong) it is an ordinary function
+    try:
+        fn = ctx.lookup_func(qual)
+        v, lo, hi, opts = ('param', '__value'), ('param', '__lo'), ('param', '__hi'), ('param', '__options')
+        sub_ctx = SE.Ctx(ctx.model)
+        third = ('tuple', (lo, hi)) if short == 'check_param_range' else opts
+        fr0 = SE.Frame(sub_ctx, fn, {fn.params[0]: v, fn.params[1]: C('label'), fn.params[2]: third})
+        fr0.run()
+        guards = [r[1] for r in sub_ctx.raises]
+        kinds = {r[0] for r in sub_ctx.raises}
+        want = T.or_([T.cmp_('Lt', v, lo), T.cmp_('Gt', v, hi)]) if short == 'check_param_range' else T.cmp_('NotIn', v, opts)
+        got = T.or_(guards) if guards else FALSE
+        ok = kinds == {'ValueError'} and (got == want or _same_truth(got, want))
+        _CHECKER_OK[key] = bool(ok)
+    except Exception:
+        _CHECKER_OK[key] = False
+    return _CHECKER_OK[key]
+
+
+def _same_truth(a, b):
+    """propositional equality over the atomic comparisons that occur (truth table, at most 6 atoms)"""
+    import itertools
+    atoms = []
+
+    def collect(t):
+        if t[0] in ('and', 'or'):
+            for x in t[1]:
+                collect(x)
+        elif t[0] == 'not':
+            collect(t[1])
+        elif t not in atoms and t[0] != 'const':
+            atoms.append(t)
+    collect(a)
+    collect(b)
+    if len(atoms) > 6:
+        return False
+
+    def val(t, m):
+        if t[0] == 'const':
+            return bool(t[1])
+        if t[0] == 'and':
+            return all(val(x, m) for x in t[1])
+        if t[0] == 'or':
+            return any(val(x, m) for x in t[1])
+        if t[0] == 'not':
+            return not val(t[1], m)
+        return m[t]
+    return all(val(a, dict(zip(atoms, vs))) == val(b, dict(zip(atoms, vs))) for vs in itertools.product((True, False), repeat=len(atoms)))
+
+
 def call_function(fr, qual, args, kw, extra, n, nself=0):
     """``nself`` = number of leading arguments that were supplied implicitly (the receiver of a method call): they have no node in n.args"""
     ctx = fr.ctx
@@ -227,6 +286,20 @@ def call_function(fr, qual, args, kw, extra, n, nself=0):
     short = qual.rsplit('.', 1)[1]
     ov = ctx.overrides.get(qual) or ctx.overrides.get(short)
     bound, problems = bind_args(fn, args, kw, extra)
+    if short in ('check_param_range', 'check_param_options') and fn.mod.endswith('utils.checks') and not problems and not extra and \
+            all(p in bound for p in fn.params[:3]) and len(fn.params) >= 3 and _native_checker_conforms(ctx, qual, short):
+        # the package's own implementation of a validation primitive, shown (once per run) to reject exactly what the primitive rejects: same event, same model
+        pos = tuple(bound[p] for p in fn.params[:3])
+        where = fr.where(n)
+        ctx.event('call', short, pos, {}, guard=fr.guard(), loops=fr.loops, where=where, extra=dict(dotted=qual))
+        if short == 'check_param_range':
+            lo, hi = T.index(pos[2], C(0)), T.index(pos[2], C(1))
+            bad = T.or_([T.cmp_('Lt', pos[0], lo), T.cmp_('Gt', pos[0], hi)])
+        else:
+            bad = T.cmp_('NotIn', pos[0], pos[2])
+        if bad != FALSE:
+            ctx.raises.append(('ValueError', T.and_(fr.pc + [bad]), where))
+        return NONE
     ev = ctx.event('pkgcall', qual, args, kw, guard=fr.guard(), loops=fr.loops, where=fr.where(n),
                    extra={'bound': dict(bound), 'problems': problems, 'extra': tuple(extra)})
     if ov is not None:
